@@ -10,6 +10,7 @@ From Coq Require Import ZArith List Lia.
 From SK Require Import Lib.Base Model.Pelt Proofs.PeltSpec Proofs.PeltRefine Check.PeltCheck.
 Open Scope Z_scope.
 
+From SK Require Import Proofs.ValidCuts.
 Definition pelt_code (C : nat -> nat -> Z) (pen : Z) (m n : nat) := pelt C pen m (m - 1) n.
 Definition split_ineq (C : nat -> nat -> Z) (m : nat) : Prop :=
   forall s k e, (s + m <= k)%nat -> (k + m <= e)%nat -> C s k + C k e <= C s e.
@@ -69,3 +70,9 @@ Theorem C02_checker_sound : forall c, (1 <= pc_m c)%nat -> (pc_m c <= pc_n c)%na
         pencost C (pc_pen c) (pc_cpts c) (pc_n c) <= pencost C (pc_pen c) c' (pc_n c)).
 Proof. exact pelt_spec_ok_sound. Qed.
 Print Assumptions C02_checker_sound.
+
+(** ---- added: statements re-derived from the lemma files by tools/append_props.py ---- *)
+Theorem C02_only_valid_cuts_matter : forall (C1 C2 : nat -> nat -> Z) (pen : Z) (m n : nat), (1 <= m)%nat -> (2 * m <= n)%nat -> (forall s e : nat, (s + m <= e)%nat -> (e <= n)%nat -> C1 s e = C2 s e) -> pelt C1 pen m (m - 1) n = pelt C2 pen m (m - 1) n.
+Proof. exact @pelt_ext_valid. Qed.
+
+Print Assumptions C02_only_valid_cuts_matter.
